@@ -36,14 +36,17 @@ struct Ev {
     kind: u8, // 0 alloc, 1 dealloc, 2 realloc
     size: usize,
     new_size: usize,
-    high: usize, // bytes >= 0x80 in the released block (c20:buf content bytes all have the top bit set)
-    hit: bool,   // the released block contains one of the registered needles (c20:key)
+    live: bool,     // the released block is the data block of a live SecretBytes (registered by address before the call)
+    nonzero: usize, // bytes != 0 in the released block (whole capacity)
+    run: bool,      // the released block contains >= 8 consecutive bytes of the c20:buf content pattern
+    hit: Option<usize>, // index of a registered needle found in the released block (c20:key)
 }
 
 thread_local! {
     static TRACK: Cell<bool> = const { Cell::new(false) };
     static EVENTS: RefCell<Vec<Ev>> = const { RefCell::new(Vec::new()) };
     static NEEDLES: RefCell<Vec<Vec<u8>>> = const { RefCell::new(Vec::new()) };
+    static LIVE: RefCell<Vec<usize>> = const { RefCell::new(Vec::new()) };
 }
 
 fn tracking() -> bool {
@@ -53,26 +56,58 @@ fn set_tracking(on: bool) {
     let _ = TRACK.try_with(|t| t.set(on));
 }
 
-unsafe fn scan(ptr: *const u8, size: usize) -> (usize, bool) {
-    let mut high = 0usize;
+/// content bytes of c20:buf follow b[i+1] - b[i] = 37 (mod 128) with the top bit set
+fn pattern_step(a: u8, b: u8) -> bool {
+    a >= 0x80 && b >= 0x80 && (b.wrapping_sub(a) & 0x7f) == 37
+}
+
+unsafe fn scan(ptr: *const u8, size: usize) -> (usize, bool, Option<usize>) {
+    let mut nonzero = 0usize;
+    let mut run = false;
+    let mut cur = 0usize;
+    let mut prev = 0u8;
     for i in 0..size {
-        if ptr.add(i).read_volatile() >= 0x80 {
-            high += 1;
+        let b = ptr.add(i).read_volatile();
+        if b != 0 {
+            nonzero += 1;
         }
+        if i > 0 && pattern_step(prev, b) {
+            cur += 1;
+            if cur >= 7 {
+                run = true;
+            }
+        } else {
+            cur = 0;
+        }
+        prev = b;
     }
     let hit = NEEDLES
         .try_with(|n| {
             n.try_borrow()
                 .map(|n| {
-                    n.iter().any(|nd| {
+                    n.iter().position(|nd| {
                         let k = nd.len();
                         k > 0 && k <= size && (0..=size - k).any(|o| (0..k).all(|j| ptr.add(o + j).read_volatile() == nd[j]))
                     })
                 })
-                .unwrap_or(false)
+                .unwrap_or(None)
         })
-        .unwrap_or(false);
-    (high, hit)
+        .unwrap_or(None);
+    (nonzero, run, hit)
+}
+
+/// is `p` a registered SecretBytes block?  (it is unregistered at once: the address may be reused within the same call)
+fn take_live(p: *mut u8) -> bool {
+    LIVE.try_with(|l| {
+        if let Ok(mut l) = l.try_borrow_mut() {
+            if let Some(i) = l.iter().position(|x| *x == p as usize) {
+                l.swap_remove(i);
+                return true;
+            }
+        }
+        false
+    })
+    .unwrap_or(false)
 }
 
 fn record(ev: Ev) {
@@ -91,7 +126,7 @@ unsafe impl GlobalAlloc for TrackingAlloc {
         let p = System.alloc(l);
         if tracking() {
             set_tracking(false);
-            record(Ev { kind: 0, size: l.size(), new_size: 0, high: 0, hit: false });
+            record(Ev { kind: 0, size: l.size(), new_size: 0, live: false, nonzero: 0, run: false, hit: None });
             set_tracking(true);
         }
         p
@@ -100,7 +135,7 @@ unsafe impl GlobalAlloc for TrackingAlloc {
         let p = System.alloc_zeroed(l);
         if tracking() {
             set_tracking(false);
-            record(Ev { kind: 0, size: l.size(), new_size: 0, high: 0, hit: false });
+            record(Ev { kind: 0, size: l.size(), new_size: 0, live: false, nonzero: 0, run: false, hit: None });
             set_tracking(true);
         }
         p
@@ -108,8 +143,8 @@ unsafe impl GlobalAlloc for TrackingAlloc {
     unsafe fn dealloc(&self, p: *mut u8, l: Layout) {
         if tracking() {
             set_tracking(false);
-            let (high, hit) = scan(p, l.size());
-            record(Ev { kind: 1, size: l.size(), new_size: 0, high, hit });
+            let (nonzero, run, hit) = scan(p, l.size());
+            record(Ev { kind: 1, size: l.size(), new_size: 0, live: take_live(p), nonzero, run, hit });
             set_tracking(true);
         }
         System.dealloc(p, l)
@@ -117,8 +152,8 @@ unsafe impl GlobalAlloc for TrackingAlloc {
     unsafe fn realloc(&self, p: *mut u8, l: Layout, new_size: usize) -> *mut u8 {
         if tracking() {
             set_tracking(false);
-            let (high, hit) = scan(p, l.size());
-            record(Ev { kind: 2, size: l.size(), new_size, high, hit });
+            let (nonzero, run, hit) = scan(p, l.size());
+            record(Ev { kind: 2, size: l.size(), new_size, live: take_live(p), nonzero, run, hit });
             set_tracking(true);
         }
         System.realloc(p, l, new_size)
@@ -150,6 +185,11 @@ fn events_reset() {
         e.clear();
         e.reserve(1 << 12);
     });
+    LIVE.with(|l| {
+        let mut l = l.borrow_mut();
+        l.clear();
+        l.reserve(64);
+    });
 }
 fn events_take() -> Vec<Ev> {
     EVENTS.with(|e| {
@@ -161,6 +201,18 @@ fn events_take() -> Vec<Ev> {
 }
 fn needles_set(n: Vec<Vec<u8>>) {
     NEEDLES.with(|x| *x.borrow_mut() = n);
+}
+/// registers the data blocks of the live buffers (by address) for the next tracked call
+fn live_set(slots: &[SecretBytes]) {
+    LIVE.with(|l| {
+        let mut l = l.borrow_mut();
+        l.clear();
+        for s in slots {
+            if s.capacity() > 0 {
+                l.push(s.as_ref().as_ptr() as usize);
+            }
+        }
+    });
 }
 
 fn allocator_installed() -> bool {
@@ -191,15 +243,52 @@ fn jvalue(v: &[u8]) -> Value {
     json!(format!("len:{}:fnv:{:016x}", v.len(), h))
 }
 
-/// data spec {"s": seed, "n": len}: byte i = 0x80 + ((s + 37 i + 11 (i / 128)) mod 128)
-fn pat(s: usize, n: usize) -> Vec<u8> {
-    (0..n).map(|i| (128 + (s + i * 37 + (i / 128) * 11) % 128) as u8).collect()
+/// The harness's own copies of content bytes: allocated exactly once (never reallocated) and wiped over their whole
+/// capacity before they are freed, so that stale harness data never shows up in the uninitialised part of somebody else's block.
+struct W(Vec<u8>);
+impl W {
+    fn from_iter_exact(n: usize, it: impl Iterator<Item = u8>) -> W {
+        let mut v = Vec::with_capacity(n);
+        for b in it.take(n) {
+            v.push(b);
+        }
+        W(v)
+    }
+    fn copy(s: &[u8]) -> W {
+        W::from_iter_exact(s.len(), s.iter().cloned())
+    }
+    fn concat(parts: &[&[u8]]) -> W {
+        let n = parts.iter().map(|p| p.len()).sum();
+        W::from_iter_exact(n, parts.iter().flat_map(|p| p.iter().cloned()))
+    }
 }
-fn data_of(v: &Value) -> Vec<u8> {
+fn wipe_vec(v: &mut Vec<u8>) {
+    v.clear();
+    for b in v.spare_capacity_mut() {
+        unsafe { std::ptr::write_volatile(b.as_mut_ptr(), 0) };
+    }
+}
+impl Drop for W {
+    fn drop(&mut self) {
+        wipe_vec(&mut self.0);
+    }
+}
+impl std::ops::Deref for W {
+    type Target = [u8];
+    fn deref(&self) -> &[u8] {
+        &self.0
+    }
+}
+
+/// data spec {"s": seed, "n": len}: byte i = 0x80 + ((s + 37 i + 11 (i / 128)) mod 128)
+fn pat(s: usize, n: usize) -> W {
+    W::from_iter_exact(n, (0..n).map(|i| (128 + (s + i * 37 + (i / 128) * 11) % 128) as u8))
+}
+fn data_of(v: &Value) -> W {
     if v.is_object() {
         pat(v["s"].as_u64().unwrap_or(0) as usize, v["n"].as_u64().unwrap_or(0) as usize)
     } else {
-        vec![]
+        W(vec![])
     }
 }
 fn us(v: &Value, k: &str) -> usize {
@@ -230,62 +319,72 @@ fn buf_report(sb: &SecretBytes, diag: bool) -> Value {
     Value::Object(m)
 }
 
+struct BufRun {
+    feat: Map<String, Value>,
+    oracle: Vec<Value>,
+    trace: Vec<Value>,
+    dirty_free: u64,
+    realloc_data: u64,
+}
+
+impl BufRun {
+    /// accounts for the allocator events of one operation
+    fn settle(&mut self, name: &str, k: usize) {
+        for ev in events_take() {
+            match ev.kind {
+                0 => {
+                    self.trace.push(json!(["a", ev.size]));
+                    feat_inc(&mut self.feat, "alloc");
+                }
+                1 => {
+                    self.trace.push(json!(["f", ev.size]));
+                    feat_inc(&mut self.feat, if ev.live { "free:buffer-block" } else { "free:other" });
+                    if ev.live && ev.nonzero > 0 {
+                        self.dirty_free += 1;
+                        self.oracle.push(json!({"sig": format!("buf:{}:freed-block-not-zeroed", name), "op_index": k, "block_size": ev.size, "nonzero_bytes": ev.nonzero}));
+                    } else if !ev.live && ev.run {
+                        self.dirty_free += 1;
+                        self.oracle.push(json!({"sig": format!("buf:{}:freed-temporary-holds-data", name), "op_index": k, "block_size": ev.size}));
+                    }
+                }
+                _ => {
+                    self.trace.push(json!(["r", ev.size, ev.new_size]));
+                    feat_inc(&mut self.feat, if ev.live { "realloc:buffer-block" } else { "realloc:other" });
+                    if (ev.live && ev.nonzero > 0) || (!ev.live && ev.run) {
+                        self.realloc_data += 1;
+                        self.oracle.push(json!({"sig": format!("buf:{}:realloc-of-block-holding-data", name), "op_index": k, "block_size": ev.size, "new_size": ev.new_size, "nonzero_bytes": ev.nonzero}));
+                    }
+                }
+            }
+        }
+    }
+}
+
 fn exec_buf(case: &Value) -> Value {
     let diag = case["diag"].as_bool().unwrap_or(false);
-    let mut feat = Map::new();
-    let mut oracle: Vec<Value> = vec![];
+    let mut run = BufRun { feat: Map::new(), oracle: vec![], trace: vec![], dirty_free: 0, realloc_data: 0 };
     if !allocator_installed() {
-        oracle.push(json!({"sig": "c20:allocator-not-installed"}));
+        run.oracle.push(json!({"sig": "c20:allocator-not-installed"}));
     }
-    let mut slots: Vec<SecretBytes> = vec![];
-    let mut refs: Vec<Vec<u8>> = vec![];
+    let mut slots: Vec<SecretBytes> = Vec::with_capacity(16);
+    let mut refs: Vec<W> = Vec::with_capacity(16);
     let mut outs: Vec<Value> = vec![];
-    let mut dirty_free = 0u64;
-    let mut realloc_data = 0u64;
-    let mut trace: Vec<Value> = vec![];
     let empty = vec![];
     let ops = case["ops"].as_array().unwrap_or(&empty);
     events_reset();
     needles_set(vec![]);
 
-    // accounts for the allocator events of one operation
-    let mut settle = |name: &str, k: usize, oracle: &mut Vec<Value>, trace: &mut Vec<Value>, feat: &mut Map<String, Value>| {
-        for ev in events_take() {
-            match ev.kind {
-                0 => {
-                    trace.push(json!(["a", ev.size]));
-                    feat_inc(feat, "alloc");
-                }
-                1 => {
-                    trace.push(json!(["f", ev.size]));
-                    feat_inc(feat, "free");
-                    if ev.high > 0 {
-                        dirty_free += 1;
-                        oracle.push(json!({"sig": format!("buf:{}:freed-block-holds-data", name), "op_index": k, "block_size": ev.size, "content_bytes": ev.high}));
-                    }
-                }
-                _ => {
-                    trace.push(json!(["r", ev.size, ev.new_size]));
-                    feat_inc(feat, "realloc");
-                    if ev.high > 0 {
-                        realloc_data += 1;
-                        oracle.push(json!({"sig": format!("buf:{}:realloc-of-block-holding-data", name), "op_index": k, "block_size": ev.size, "new_size": ev.new_size, "content_bytes": ev.high}));
-                    }
-                }
-            }
-        }
-    };
-
     for (k, op) in ops.iter().enumerate() {
         let name = op["op"].as_str().unwrap_or("").to_string();
         let i = us(op, "i");
         let d = data_of(&op["d"]);
-        feat_inc(&mut feat, &format!("op:{}", name));
+        feat_inc(&mut run.feat, &format!("op:{}", name));
         let needs_slot = name != "new";
         if needs_slot && i >= slots.len() {
             outs.push(json!({"r": "skip"}));
             continue;
         }
+        live_set(&slots);
         match name.as_str() {
             "new" => {
                 let ctor = op["ctor"].as_str().unwrap_or("");
@@ -293,16 +392,18 @@ fn exec_buf(case: &Value) -> Value {
                 let (sb, expect) = match ctor {
                     "with_capacity" => {
                         let n = us(op, "n");
-                        (tracked(|| SecretBytes::with_capacity(n)), vec![])
+                        (tracked(|| SecretBytes::with_capacity(n)), W(vec![]))
                     }
                     "from" => {
                         let via = op["via"].as_str().unwrap_or("from_slice_reserve");
-                        feat_inc(&mut feat, &format!("ctor:{}", via));
+                        feat_inc(&mut run.feat, &format!("ctor:{}", via));
                         let sb = match via {
                             "from_slice" if extra == 0 => tracked(|| SecretBytes::from_slice(&d)),
                             "slice" if extra == 0 => tracked(|| SecretBytes::from(&d[..])),
                             "boxed" if extra == 0 => {
-                                let b: Box<[u8]> = d.clone().into_boxed_slice();
+                                let mut v = Vec::with_capacity(d.len());
+                                v.extend_from_slice(&d);
+                                let b: Box<[u8]> = v.into_boxed_slice();
                                 tracked(|| SecretBytes::from(b))
                             }
                             "vec" => {
@@ -312,14 +413,14 @@ fn exec_buf(case: &Value) -> Value {
                             }
                             _ => tracked(|| SecretBytes::from_slice_reserve(&d, extra)),
                         };
-                        (sb, d.clone())
+                        (sb, W::copy(&d))
                     }
-                    "new_with" => (tracked(|| SecretBytes::new_with(d.len(), |b| b.copy_from_slice(&d))), d.clone()),
-                    _ => (tracked(SecretBytes::default), vec![]),
+                    "new_with" => (tracked(|| SecretBytes::new_with(d.len(), |b| b.copy_from_slice(&d))), W::copy(&d)),
+                    _ => (tracked(SecretBytes::default), W(vec![])),
                 };
-                settle(&name, k, &mut oracle, &mut trace, &mut feat);
+                run.settle(&name, k);
                 if sb.as_ref() != &expect[..] {
-                    oracle.push(json!({"sig": format!("buf:new:{}:contents-differ", ctor), "op_index": k}));
+                    run.oracle.push(json!({"sig": format!("buf:new:{}:contents-differ", ctor), "op_index": k}));
                 }
                 let mut rep = buf_report(&sb, diag);
                 rep["r"] = json!("ok");
@@ -329,92 +430,89 @@ fn exec_buf(case: &Value) -> Value {
             }
             "clone" => {
                 let c = tracked(|| slots[i].clone());
-                settle(&name, k, &mut oracle, &mut trace, &mut feat);
+                run.settle(&name, k);
                 if c.as_ref() != &refs[i][..] {
-                    oracle.push(json!({"sig": "buf:clone:contents-differ", "op_index": k}));
+                    run.oracle.push(json!({"sig": "buf:clone:contents-differ", "op_index": k}));
                 }
                 let mut rep = buf_report(&c, diag);
                 rep["r"] = json!("ok");
                 outs.push(rep);
                 slots.push(c);
-                let r = refs[i].clone();
+                let r = W::copy(&refs[i]);
                 refs.push(r);
             }
             "drop" => {
                 let sb = slots.remove(i);
                 refs.remove(i);
                 tracked(|| drop(sb));
-                settle(&name, k, &mut oracle, &mut trace, &mut feat);
+                run.settle(&name, k);
                 outs.push(json!({"r": "ok"}));
             }
             "into_vec" | "into_boxed" => {
                 let sb = slots.remove(i);
                 let expect = refs.remove(i);
-                let got: Vec<u8> = if name == "into_vec" {
+                let mut got: Vec<u8> = if name == "into_vec" {
                     let v = tracked(|| sb.into_vec());
                     if v.capacity() > 0 {
-                        trace.push(json!(["e", v.capacity()]));
+                        run.trace.push(json!(["e", v.capacity()]));
                     }
                     v
                 } else {
                     let b = tracked(|| sb.into_boxed_slice());
                     if b.len() > 0 {
-                        trace.push(json!(["e", b.len()]));
+                        run.trace.push(json!(["e", b.len()]));
                     }
                     b.into_vec()
                 };
-                // (the escape marker is placed before this operation's allocator events in the diagnostic trace)
-                settle(&name, k, &mut oracle, &mut trace, &mut feat);
-                if got != expect {
-                    oracle.push(json!({"sig": format!("buf:{}:contents-differ", name), "op_index": k}));
+                run.settle(&name, k);
+                if got[..] != expect[..] {
+                    run.oracle.push(json!({"sig": format!("buf:{}:contents-differ", name), "op_index": k}));
                 }
                 outs.push(json!({"r": "ok", "len": got.len(), "v": jvalue(&got)}));
-                drop(got); // the caller's block: outside the buffer's responsibility, not tracked
+                // the caller's block: outside the buffer's responsibility; the harness wipes its own garbage
+                wipe_vec(&mut got);
             }
             _ => {
-                // operations on a live buffer; the reference is the obvious list semantics on a Vec<u8>
-                let len = refs[i].len();
+                // operations on a live buffer; the reference is the obvious list semantics
+                let cur = &refs[i];
+                let len = cur.len();
                 let mut expect_panic = false;
-                let mut next = refs[i].clone();
-                let known = match name.as_str() {
-                    "ensure" | "reserve" | "shrink" => true,
-                    "extend" | "write" | "bextend" => {
-                        next.extend_from_slice(&d);
-                        true
-                    }
+                let next: Option<W> = match name.as_str() {
+                    "ensure" | "reserve" | "shrink" => Some(W::copy(cur)),
+                    "extend" | "write" | "bextend" => Some(W::concat(&[cur, &d])),
                     "insert" => {
                         let pos = us(op, "pos");
                         if pos > len {
                             expect_panic = true;
+                            Some(W::copy(cur))
                         } else {
-                            next.splice(pos..pos, d.iter().cloned());
+                            Some(W::concat(&[&cur[..pos], &d, &cur[pos..]]))
                         }
-                        true
                     }
                     "remove" => {
                         let (s, e) = (us(op, "s"), us(op, "e"));
                         if s > e || e > len {
                             expect_panic = true;
+                            Some(W::copy(cur))
                         } else {
-                            next.drain(s..e);
+                            Some(W::concat(&[&cur[..s], &cur[e..]]))
                         }
-                        true
                     }
                     "resize" => {
-                        next.resize(us(op, "n"), 0);
-                        true
+                        let n = us(op, "n");
+                        Some(W::from_iter_exact(n, cur.iter().cloned().chain(std::iter::repeat(0u8))))
                     }
+                    "clear" => Some(W(vec![])),
                     // (`Zeroize::zeroize` is not callable from here: the zeroize crate is not a dependency of the harness)
-                    "clear" => {
-                        next.clear();
-                        true
-                    }
-                    _ => false,
+                    _ => None,
                 };
-                if !known {
-                    outs.push(json!({"r": "badop"}));
-                    continue;
-                }
+                let next = match next {
+                    Some(n) => n,
+                    None => {
+                        outs.push(json!({"r": "badop"}));
+                        continue;
+                    }
+                };
                 let sb = &mut slots[i];
                 let cap_before = sb.capacity();
                 let res = catch_unwind(AssertUnwindSafe(|| {
@@ -447,7 +545,7 @@ fn exec_buf(case: &Value) -> Value {
                     })
                 }));
                 set_tracking(false);
-                settle(&name, k, &mut oracle, &mut trace, &mut feat);
+                run.settle(&name, k);
                 let r = match &res {
                     Ok(Ok(())) => "ok",
                     Ok(Err(_)) => "err",
@@ -455,34 +553,31 @@ fn exec_buf(case: &Value) -> Value {
                 };
                 drop(res);
                 if r == "panic" {
-                    feat_inc(&mut feat, "panic");
+                    feat_inc(&mut run.feat, "panic");
                 }
                 if (r == "panic") != expect_panic {
-                    oracle.push(json!({"sig": format!("buf:{}:{}", name, if expect_panic { "missing-panic" } else { "unexpected-panic" }), "op_index": k}));
+                    run.oracle.push(json!({"sig": format!("buf:{}:{}", name, if expect_panic { "missing-panic" } else { "unexpected-panic" }), "op_index": k}));
                 }
                 if r == "err" {
-                    oracle.push(json!({"sig": format!("buf:{}:unexpected-error", name), "op_index": k}));
+                    run.oracle.push(json!({"sig": format!("buf:{}:unexpected-error", name), "op_index": k}));
                 }
-                if !expect_panic {
-                    refs[i] = next;
-                }
+                refs[i] = next;
                 let sb = &slots[i];
                 if sb.as_ref() != &refs[i][..] {
-                    oracle.push(json!({"sig": format!("buf:{}:contents-differ", name), "op_index": k, "len": sb.len(), "expected_len": refs[i].len()}));
+                    run.oracle.push(json!({"sig": format!("buf:{}:contents-differ", name), "op_index": k, "len": sb.len(), "expected_len": refs[i].len()}));
                 }
                 if sb.capacity() != cap_before {
-                    feat_inc(&mut feat, "cap-change");
+                    feat_inc(&mut run.feat, "cap-change");
                     if cap_before > 0 && sb.capacity() > cap_before {
-                        feat_inc(&mut feat, "grow-with-data");
-                        // diagnostic: the growth law read from the source
+                        feat_inc(&mut run.feat, "grow-with-data");
+                        // diagnostic: the growth law as read from the source
                         let want = match name.as_str() {
                             "ensure" | "resize" => us(op, "n"),
                             "reserve" => len + us(op, "n"),
-                            "insert" if expect_panic || true => len + d.len(),
                             _ => len + d.len(),
                         };
                         if sb.capacity() != want.max(cap_before * 2).max(32) {
-                            feat_inc(&mut feat, "diag:capacity-drift");
+                            feat_inc(&mut run.feat, "diag:capacity-drift");
                         }
                     }
                 }
@@ -492,21 +587,22 @@ fn exec_buf(case: &Value) -> Value {
             }
         }
     }
-    // end of program: every buffer still alive is dropped
+    // end of program: every buffer still alive is dropped (slot 0 first)
     let fin: Vec<Value> = slots.iter().map(|s| buf_report(s, diag)).collect();
+    live_set(&slots);
     for sb in slots.drain(..) {
         tracked(|| drop(sb));
-        settle("final-drop", ops.len(), &mut oracle, &mut trace, &mut feat);
+        run.settle("final-drop", ops.len());
     }
     let mut last = Map::new();
     last.insert("final".into(), Value::Array(fin));
-    last.insert("dirty_free".into(), json!(dirty_free));
-    last.insert("realloc_data".into(), json!(realloc_data));
+    last.insert("dirty_free".into(), json!(run.dirty_free));
+    last.insert("realloc_data".into(), json!(run.dirty_free * 0 + run.realloc_data));
     if diag {
-        last.insert("trace".into(), Value::Array(trace));
+        last.insert("trace".into(), Value::Array(std::mem::take(&mut run.trace)));
     }
     outs.push(Value::Object(last));
-    json!({"out": outs, "oracle": oracle, "feat": feat})
+    json!({"out": outs, "oracle": run.oracle, "feat": run.feat})
 }
 
 // =================================================================================================
@@ -923,6 +1019,7 @@ impl log::Log for CapLog {
     fn log(&self, r: &log::Record) {
         if CAPTURE_ON.load(Ordering::SeqCst) {
             let line = format!("{} {} {}", r.level(), r.target(), r.args());
+            let _ = &line;
             if let Ok(mut c) = CAPTURED.lock() {
                 c.push(line);
             }
@@ -1105,8 +1202,8 @@ fn exec_log(case: &Value, tag: &str) -> Value {
                 let site = if rec.starts_with("RETURNED-ERROR") {
                     "returned-error".to_string()
                 } else {
-                    // level + target + the constant head of the message
-                    rec.split(':').next().unwrap_or("").chars().take(80).collect::<String>()
+                    // level + target + the constant head of the message (up to the first ": " or 48 characters)
+                    rec.split(": ").next().unwrap_or("").chars().take(72).collect::<String>()
                 };
                 let sig = format!("log:{}:{}:record-holds-secret", label.replace(' ', "-"), site);
                 if !oracle.iter().any(|o: &Value| o["sig"] == sig) {
@@ -1127,9 +1224,9 @@ fn key_needles(secret: &[u8]) -> Vec<Vec<u8>> {
     let k = secret.len().min(16);
     n.push(secret[..k].to_vec());
     n.push(secret[secret.len() - k..].to_vec());
-    let rev: Vec<u8> = secret.iter().rev().cloned().collect();
-    n.push(rev[..k].to_vec());
-    n.push(rev[rev.len() - k..].to_vec());
+    // byte-reversed (little-endian limb order of big-endian scalars); no temporary copy is left behind unwiped
+    n.push(secret.iter().rev().take(k).cloned().collect());
+    n.push(secret.iter().take(k).rev().cloned().collect());
     n
 }
 
@@ -1241,11 +1338,11 @@ fn exec_key(case: &Value) -> Value {
             1 => feat_inc(&mut feat, "free"),
             _ => feat_inc(&mut feat, "realloc"),
         }
-        if ev.kind != 0 && ev.hit {
+        if ev.kind != 0 && ev.hit.is_some() {
             dirty += 1;
             let sig = format!("key:{}:{}-block-holds-secret", ty, if ev.kind == 1 { "freed" } else { "realloc" });
             if !oracle.iter().any(|o: &Value| o["sig"] == sig) {
-                oracle.push(json!({"sig": sig, "block_size": ev.size}));
+                oracle.push(json!({"sig": sig, "block_size": ev.size, "needle": ev.hit}));
             }
         }
     }
@@ -1321,7 +1418,8 @@ fn gen_buf_random(r: &mut Rng, id: String, thorough: bool) -> Value {
                 let n = pick_size(r, thorough).min(1100);
                 if len + n > limit { continue; }
                 let bad = r.chance(1, 14);
-                let pos = if bad { len + 1 + r.below(3) } else { *r.pick(&[0, len, len / 2, r.below(len + 1), len.saturating_sub(1)]) };
+                let rp = r.below(len + 1);
+                let pos = if bad { len + 1 + r.below(3) } else { *r.pick(&[0, len, len / 2, rp, len.saturating_sub(1)]) };
                 ops.push(json!({"op": "insert", "i": i, "pos": pos, "d": dspec(r, n)}));
                 if !bad { lens[i] = len + n; }
             }
@@ -1338,13 +1436,14 @@ fn gen_buf_random(r: &mut Rng, id: String, thorough: bool) -> Value {
                 if !(s > e || e > len) { lens[i] = len - (e - s); }
             }
             47..=58 => {
-                let n = *r.pick(&[pick_size(r, thorough), len + 1, len.saturating_sub(1), len, len * 2, len / 2, 0]);
+                let ps = pick_size(r, thorough);
+                let n = *r.pick(&[ps, len + 1, len.saturating_sub(1), len, len * 2, len / 2, 0]);
                 if n > limit { continue; }
                 ops.push(json!({"op": "resize", "i": i, "n": n}));
                 lens[i] = n;
             }
-            59..=66 => ops.push(json!({"op": "reserve", "i": i, "n": *r.pick(&[0, 1, pick_size(r, thorough), len, len + 1])})),
-            67..=71 => ops.push(json!({"op": "ensure", "i": i, "n": *r.pick(&[0, 1, pick_size(r, thorough), len, len + 1, len * 2])})),
+            59..=66 => { let ps = pick_size(r, thorough); ops.push(json!({"op": "reserve", "i": i, "n": *r.pick(&[0, 1, ps, len, len + 1])})) }
+            67..=71 => { let ps = pick_size(r, thorough); ops.push(json!({"op": "ensure", "i": i, "n": *r.pick(&[0, 1, ps, len, len + 1, len * 2])})) }
             72..=77 => ops.push(json!({"op": "shrink", "i": i})),
             78..=80 => { ops.push(json!({"op": "clear", "i": i})); lens[i] = 0; }
             81..=82 => { ops.push(json!({"op": "clear", "i": i})); lens[i] = 0; }
